@@ -130,6 +130,32 @@ def run(tier):
                           site=site(f, t["sp"]), detail={"path_blocks": p})
     rep.floor("functions that take *self", n_bodies, 8)
 
+    # (a') the deferred rebuild of a mapping uses the same insertion primitive as the eager loader (LinkedHashMap::insert, directly or
+    # through FromIterator/Extend), so repeated keys resolve the same way in both modes (later value wins, entry moves to the back)
+    ins = F.fn(LOADER + "::insert_new_node")
+    eager = sorted({ck for _, _, ck, _ in ins.calls() if ck and ck.startswith("hashlink::LinkedHashMap::")})
+    rep.check(eager == ["hashlink::LinkedHashMap::insert"], "rebuild-primitive", "YamlLoader::insert_new_node", "the eager loader no longer places pairs with LinkedHashMap::insert",
+              site=ins.span, detail=eager)
+    NEUTRAL = ("::new", "::default", "::with_capacity", "::with_capacity_and_hasher", "::into_iter", "::len", "::is_empty", "::iter", "::hasher", "::reserve")
+    nreb = 0
+    for k, f in sorted(F.fns.items()):
+        if f.name != "parse_representation_recursive" or f.kind != "AssocFn" or not f.file.endswith("macros.rs"):
+            continue
+        nreb += 1
+        bodies = [f] + [g for k2, g in F.fns.items() if k2.startswith(k + "::{closure")]
+        prim = set()
+        for g in bodies:
+            for _, t, ck, fr in g.calls():
+                key = (fr.get("resolved") or ck) if fr else ck
+                if ck and ck.startswith("hashlink::LinkedHashMap::") and not ck.endswith(NEUTRAL):
+                    prim.add(ck)
+                if ck in ("std::iter::Iterator::collect", "std::iter::Extend::extend") and "LinkedHashMap" in " ".join(fr.get("substs", [])) + t["dest_ty"]:
+                    prim.add("FromIterator/Extend")
+        okp = prim and prim <= {"hashlink::LinkedHashMap::insert", "FromIterator/Extend"}
+        rep.check(okp, "rebuild-primitive", short(k), "the mapping is rebuilt with %s: an entry whose resolved key already exists is treated differently from the eager "
+                  "loader's insert (position/value of repeated keys)" % sorted(prim), site=f.span, detail=sorted(prim))
+    rep.floor("parse_representation_recursive bodies", nreb, 4)
+
     # (b) variant maps
     yaml = "saphyr::yaml::Yaml"
     targets = {
@@ -311,7 +337,7 @@ def run(tier):
     for ty in DATA_TYPES:
         sets[ty] = {f.name for f in F.fns.values() if f.d.get("impl_adt") == ty and f.kind == "AssocFn" and not f.d.get("impl_trait")
                     and f.file.endswith("macros.rs")}
-    rep.floor("macro-generated methods per node type", len(sets[DATA_TYPES[0]]), 40)
+    rep.floor("macro-generated methods per node type", len(sets[DATA_TYPES[0]]), 30)
     # the macro has a borrowing and an owned flavour: compare within each flavour
     for a, b in ((DATA_TYPES[0], DATA_TYPES[2]), (DATA_TYPES[1], DATA_TYPES[3])):
         missing = sorted((sets[a] - sets[b]) - set(PARITY_EXCEPTIONS))
